@@ -3,7 +3,7 @@ CONSTANTS
   Shapes <- ShapesN
   Kinds <- KindsN
   MaxT = 1
-  Variant = "avg_location"
+  Variant = "face_table"
   Srcs = "few"
 INVARIANT TypeOK
 INVARIANT PermInv
